@@ -161,6 +161,8 @@ OPTION_SETS = [
      "/a/b/": {"w": "{branchname}-{relpath}"}},
     {"/a*": {"v": "1"}, "/ab": {"v": "2", "ignore_parents": "no"}, "/a?": {"v": "3"}},
     {"a": {"v": "rel"}, "/a/b/a": {"v": "deep"}, "/a/b": {"v": "{relpath}", "v:policy": "norecurse"}},
+    # an EMPTY value in the more specific section is a value (it hides the parent's), not "undefined"
+    {"/": {"v": "top", "w": "{relpath}"}, "/a/": {"v": "", "w": "0"}},
 ]
 
 
@@ -212,7 +214,10 @@ def ob_matcher(cx):
                 else:
                     out = out + raw[i:i + 1]
                     i += 1
-            cx.require(val == out, "option %s of section %s expands to something else than the reference" % (oname, name))
+            cx.require(val is not None and val == out,
+                       "option %s of section %s expands to %r, the reference gives %r" % (oname, name, val, out))
+        cx.require(sec.get("not-set") is None and sec.get("not-set", "dflt") == "dflt",
+                   "an option the section does not define does not yield the default")
     cx.observe("ids", [s.id for s in got])
     if len(got) >= 2:
         cx.cover("several")
